@@ -1132,7 +1132,7 @@ fn reject_check(c: &mut Case, inp: &EstInput, what: &str, fit_err: bool, predict
     c.bucket(&format!("invalid:{}", inv));
 }
 
-fn reg_run<D: Distance<Vec<f64>, f64>>(c: &mut Case, inp: &EstInput, dist: D) {
+fn reg_run<D: Distance<Vec<f64>, f64> + serde::Serialize + serde::de::DeserializeOwned>(c: &mut Case, inp: &EstInput, dist: D) {
     let what = "regressor";
     let x = DenseMatrix::from_2d_vec(&inp.rows);
     let xq = DenseMatrix::from_2d_vec(&inp.queries);
@@ -1180,6 +1180,7 @@ fn reg_run<D: Distance<Vec<f64>, f64>>(c: &mut Case, inp: &EstInput, dist: D) {
     if !c.check("knn.predict.ok", pred.len() == inp.queries.len(), &sg, || format!("{} predictions for {} query rows", pred.len(), inp.queries.len())) {
         return;
     }
+    sequence_checks(c, &format!("knn.{}", what), &sg, &model, &xq, &pred, |m, q| m.predict(q));
     for (qi, q) in inp.queries.iter().enumerate() {
         let d1: Vec<f64> = inp.rows.iter().map(|r| dist.distance(r, q)).collect();
         let ti = ties_of(d1, inp.k);
@@ -1259,7 +1260,7 @@ fn knn_regressor(c: &mut Case) {
     with_metric!(inp.metric, d => reg_run(c, &inp, d));
 }
 
-fn cls_run<D: Distance<Vec<f64>, f64>>(c: &mut Case, inp: &EstInput, dist: D) {
+fn cls_run<D: Distance<Vec<f64>, f64> + serde::Serialize + serde::de::DeserializeOwned>(c: &mut Case, inp: &EstInput, dist: D) {
     let what = "classifier";
     let x = DenseMatrix::from_2d_vec(&inp.rows);
     let xq = DenseMatrix::from_2d_vec(&inp.queries);
@@ -1307,6 +1308,7 @@ fn cls_run<D: Distance<Vec<f64>, f64>>(c: &mut Case, inp: &EstInput, dist: D) {
     if !c.check("knn.predict.ok", pred.len() == inp.queries.len(), &sg, || format!("{} predictions for {} query rows", pred.len(), inp.queries.len())) {
         return;
     }
+    sequence_checks(c, &format!("knn.{}", what), &sg, &model, &xq, &pred, |m, q| m.predict(q));
     let mut labels = sorted_f(&inp.y);
     labels.dedup();
     let class_of = |v: f64| labels.iter().position(|l| *l == v);
